@@ -28,8 +28,14 @@ ASSUMPTIONS = [
     "OIDs have >= 2 arcs, first arc 0..2, second arc < 40, sub-identifiers <= 2^32-1 (x690 documents the rest as unsupported)",
     "an instance whose OID equals a root may or may not be reported (property text)",
 ]
-REQUIRED_CLASSES = {"multi_root": 0.20, "empty_subtree": 0.10, "unsorted_listing": 0.10,
+_REQUIRED_BASE = {"multi_root": 0.20, "empty_subtree": 0.10, "unsorted_listing": 0.10,
                     "ends_at_end_of_view": 0.05, "v3": 0.03}
+# generator health of the newer case families (quick tier: the thorough tier dilutes them with enumerated units)
+_REQUIRED_QUICK = {'volatile_values': 0.08}
+
+
+def REQUIRED_CLASSES(tier):
+    return dict(_REQUIRED_BASE, **(_REQUIRED_QUICK if tier == "quick" else {}))
 
 
 def _below(o, r):
